@@ -445,7 +445,12 @@ func reifyValue(
 	}
 
 	if baseType.Kind() == reflect.Struct {
+		// (the probe evaluates val on its own: the references it passes through are no
+		// longer being evaluated when val is read as a primitive afterwards)
+		active := opts.opts.activeFields
+		opts.opts.activeFields = newFieldSet(active)
 		sub, err := val.toConfig(opts.opts)
+		opts.opts.activeFields = active
 		if err != nil {
 			return reifyPrimitive(opts, val, t, baseType)
 		}
